@@ -359,7 +359,7 @@ def _digest_of_trace_line(rest):
 def extraction_crosscheck(runner, shard_text, root, max_cases=40):
     """evaluate small histories with vm_compute inside coqc and compare with what the
        extracted OCaml driver printed for the same histories; returns (n_checked, [mismatch])"""
-    d = os.path.join(runner.runs, "xcheck_c")
+    d = os.path.join(runner.runs, "xcheck_c_p%d" % os.getpid())
     shutil.rmtree(d, ignore_errors=True)
     os.makedirs(d)
     hs = []
@@ -425,12 +425,14 @@ def check(prop, seed, tier, root):
         return 2
     # 3./4. corpus + fresh cases
     shards = make_shards(prop, seed, tier, root)
-    nx, xbad = extraction_crosscheck(runner, shards[-1], root)
+    xtext = "".join(h.text() for h in gen_histories(prop, seed, 9999, 250, "quick"))     # small histories
+    nx, xbad = extraction_crosscheck(runner, xtext, root)
     print(f"[{prop}] extraction cross-check (vm_compute vs extracted OCaml): {nx} histories, {len(xbad)} mismatches", flush=True)
     if xbad:
         print("ERROR: the extracted driver and Coq's own evaluation of the model disagree (a /verif problem):\n" + "\n".join(xbad[:3]))
         return 2
-    jobs = [(f"{prop}-{i}", text, None, runner, True) for i, text in enumerate(shards)]
+    # run directories are private to this process (somebody else may be checking the same property)
+    jobs = [(f"{prop}-{i}-p{os.getpid()}", text, None, runner, True) for i, text in enumerate(shards)]
     with ThreadPoolExecutor(16) as ex:
         results = list(ex.map(runner.run_shard, jobs))
     n_hist = n_obs = nontriv = 0
@@ -474,6 +476,9 @@ def check(prop, seed, tier, root):
     if divs and rc == 0:
         print(f"VIOLATION property={prop} no-failing-input-found (model and implementation disagree)")
         rc = 1
+    if rc == 0 and os.environ.get("C_KEEP_TRACES") != "1":
+        for r in results:
+            shutil.rmtree(r["dir"], ignore_errors=True)
     print(f"[{prop}] tier={tier} seed={seed} histories={n_hist} observations={n_obs} nontrivial={nontriv} "
           f"divergences={len(divs)} oracle_violations={len(viols)} wall={round(time.time() - t0, 1)}s -> {'FAIL' if rc else 'ok'}")
     return rc
